@@ -30,7 +30,7 @@ ASSUMPTIONS = [
     'template matching objects are exercised through TemplateAttack/TemplateDPAAttack.update after build()',
 ]
 
-KINDS = ['cpa', 'cpa_alt', 'dpa', 'anova', 'nicv', 'snr', 'mia', 'tbuild', 'tmatch_dpa', 'tmatch_static', 'attack_cpa', 'attack_snr']
+KINDS = ['cpa', 'cpa_alt', 'dpa', 'anova', 'nicv', 'snr', 'mia', 'tbuild', 'tmatch_dpa', 'tmatch_static', 'attack_cpa', 'attack_snr', 'run_cpa', 'run_snr']
 CHEAP_KINDS = ['cpa', 'cpa_alt', 'dpa', 'attack_cpa']
 
 # rejection kinds per distinguisher family.  'first' = only a fault when nothing has been accepted yet;
@@ -48,6 +48,8 @@ for _k in ('nicv', 'snr', 'mia'):
     WHYS[_k] = WHYS['anova']
 WHYS['tmatch_dpa'] = WHYS['tmatch_static'] = WHYS['tmatch']
 WHYS['attack_cpa'] = WHYS['attack_snr'] = WHYS['attack']
+# whole run() calls on a container (with a convergence step): refused on their first batch
+WHYS['run_cpa'] = WHYS['run_snr'] = ['sf_raises', 'length', 'words']
 FIRST_ONLY = {'dpa_range', 'dpa_dtype', 'auto_gt255', 'auto_neg', 'before_build'}
 LATER_ONLY = {'length', 'words'}
 
@@ -88,7 +90,7 @@ class _Obj:
             else:
                 self.o = scared.TemplateAttack(container_building=cont, reverse_selection_function=rsf,
                                                model=scared.Value(), precision=prec, partitions=list(case['partitions']))
-        elif kind.startswith('attack'):
+        elif kind.startswith(('attack', 'run')):
             self.fail_next = [False]
             fail = self.fail_next
 
@@ -97,11 +99,12 @@ class _Obj:
                 if fail[0]:
                     raise RuntimeError('injected selection function failure')
                 return np.stack([d, d ^ 1], axis=1)
-            if kind == 'attack_cpa':
-                self.o = scared.CPAAttack(selection_function=sf, model=scared.Value(), discriminant=scared.maxabs, precision=prec)
+            ckw = {'convergence_step': int(case['convergence_step'])} if case.get('convergence_step') else {}
+            if kind in ('attack_cpa', 'run_cpa'):
+                self.o = scared.CPAAttack(selection_function=sf, model=scared.Value(), discriminant=scared.maxabs, precision=prec, **ckw)
             else:
                 self.o = scared.SNRAttack(selection_function=sf, model=scared.Value(), discriminant=scared.maxabs, precision=prec,
-                                          partitions=list(case['partitions']))
+                                          partitions=list(case['partitions']), **ckw)
         else:
             raise ValueError(kind)
 
@@ -110,6 +113,9 @@ class _Obj:
         self.built = True
 
     def update(self, traces, data):
+        if self.kind.startswith('run'):
+            # analysis run step: a whole container, cut in batches by the analysis (convergence step / container batch size)
+            return self.o.run(scared.Container(dist.ram_ths(samples=traces, d=data)))
         if self.kind.startswith('attack'):
             # analysis process step: a batch object with samples/metadatas
             class _B:
@@ -215,7 +221,8 @@ def run_history(ctx, case):
     real = _Obj(case)
     twin = _Obj(case)
     is_tmatch = kind.startswith('tmatch')
-    is_attack = kind.startswith('attack')
+    is_attack = kind.startswith(('attack', 'run'))
+    is_run = kind.startswith('run')
     accepted_rows = 0
     accepted_calls = 0
     rejected_after_accept = 0
@@ -296,6 +303,13 @@ def run_history(ctx, case):
                 _cmp(case, step, ra, twin.compute())
         if real.processed != accepted_rows:
             raise Violation('step %d (%s): processed_traces=%s but accepted rows=%d' % (step, op.get('why', o), real.processed, accepted_rows), case)
+        if is_run:
+            # what the analysis exposes (results, scores, convergence traces) is that of the accepted runs only
+            for attr in ('results', 'scores', 'convergence_traces'):
+                va, vb = getattr(real.o, attr), getattr(twin.o, attr)
+                if (va is None) != (vb is None) or (va is not None and not dist.same(va, vb)):
+                    raise Violation('step %d (%s): %s differs from an analysis that never saw the refused runs (%s vs %s)' % (
+                        step, op.get('why', o), attr, 'None' if va is None else np.shape(va), 'None' if vb is None else np.shape(vb)), case)
     if accepted_calls > 0:
         ra = must(case, 'final compute() after %d rejected call(s)' % rejections, real.compute)
         _cmp(case, len(case['ops']), ra, twin.compute())
@@ -312,7 +326,7 @@ def run_history(ctx, case):
 
 def _case_skeleton(kind, precision, L, W, parts):
     case = {'kind': 'history', 'dist': kind, 'precision': precision, 'L': L, 'W': W}
-    if kind in ('anova', 'nicv', 'snr', 'mia', 'tbuild', 'attack_snr') or kind.startswith('tmatch'):
+    if kind in ('anova', 'nicv', 'snr', 'mia', 'tbuild', 'attack_snr', 'run_snr') or kind.startswith('tmatch'):
         case['partitions'] = parts
     if kind == 'mia':
         case['bin_edges'] = [-8.0, 0.0, 8.0, 16.0, 24.0]
@@ -323,7 +337,7 @@ def _data_for(kind, g_int, n, W, nclasses):
     """g_int(lo, hi, shape) -> int array"""
     if kind in ('cpa', 'cpa_alt'):
         return g_int(0, 9, (n, W)).astype('uint8')
-    if kind == 'dpa' or kind.startswith('attack'):
+    if kind == 'dpa' or kind.startswith(('attack', 'run')):
         return g_int(0, 1, (n, W)).astype('uint8')
     if kind == 'tmatch_dpa':
         return g_int(0, nclasses - 1, (n, 3)).astype('uint8')
@@ -341,6 +355,8 @@ def histories(draw, kind):
     auto = kind in ('anova', 'nicv', 'snr', 'mia', 'tbuild') and draw(st.booleans())
     case = _case_skeleton(kind, precision, L, W, None if auto else list(range(nclasses)))
     tdt = draw(st.sampled_from(['uint8', 'int16', 'float32', 'float64']))
+    if kind.startswith('run'):
+        case['convergence_step'] = draw(st.sampled_from([0, 2, 3, 5]))
 
     def g_int(lo, hi, shape):
         from hypothesis.extra import numpy as hnp
@@ -362,7 +378,7 @@ def histories(draw, kind):
         if o == 'compute':
             ops.append({'op': 'compute'})
             continue
-        n = draw(st.integers(1, 4))
+        n = draw(st.integers(1, 9 if kind.startswith('run') else 4))
         op = {'op': o, 'traces': traces(n), 'data': _data_for(kind, g_int, n, W, nclasses)}
         if o == 'bad':
             op['why'] = draw(st.sampled_from(whys))
@@ -391,6 +407,8 @@ def unit_enumerated(ctx, kinds, reps, computes=(False, True)):
                         auto = kind in ('anova', 'nicv', 'snr', 'mia', 'tbuild') and (why.startswith('auto') or bool(g.integers(2)))
                         case = _case_skeleton(kind, precision, L, W, None if auto else list(range(nclasses)))
                         tdt = ['uint8', 'int16', 'float32', 'float64'][int(g.integers(4))]
+                        if kind.startswith('run'):
+                            case['convergence_step'] = [0, 2, 3, 5][int(g.integers(4))]
 
                         def g_int(lo, hi, shape):
                             return g.integers(lo, hi + 1, size=shape)
